@@ -33,4 +33,24 @@ def _uf(sort, wrap):
     return f
 
 
-SPEC_FUNCS = {"uf_bool": _uf(B, VBool), "uf_real": _uf(R, VReal), "uf_int": _uf(I, VInt)}
+_ENV = z3.Function("envelope_area", z3.ArraySort(I, R), z3.ArraySort(I, R), I, R)
+
+
+def envsum(interp, e, fr):
+    """envsum(mp, mr, m) = sum_{t<m} mp[t] * (mr[t] - mr[t+1]) of two real lists: ghost function defined by primitive recursion
+    on m (the two defining equations are added for the lists it is applied to)"""
+    mp, mr = interp.ev(e.args[0], fr), interp.ev(e.args[1], fr)
+    m = interp.ev(e.args[2], fr)
+    ctx = interp.ctx
+    a = z3.Select(ctx.item_map("", R), mp.z)
+    b = z3.Select(ctx.item_map("", R), mr.z)
+    key = ("envsum", a.get_id(), b.get_id())
+    if key not in ctx.literals:
+        ctx.literals.add(key)
+        t = z3.Int("t!env")
+        ctx.add_definition(_ENV(a, b, 0) == 0)
+        ctx.add_definition(z3.ForAll([t], z3.Implies(t >= 0, _ENV(a, b, t + 1) == _ENV(a, b, t) + z3.Select(a, t) * (z3.Select(b, t) - z3.Select(b, t + 1)))))
+    return VReal(_ENV(a, b, m.z))
+
+
+SPEC_FUNCS = {"envsum": envsum, "uf_bool": _uf(B, VBool), "uf_real": _uf(R, VReal), "uf_int": _uf(I, VInt)}
